@@ -10,7 +10,7 @@ use std::panic::{catch_unwind, AssertUnwindSafe};
 thread_local! {
     static LEDGER: RefCell<Vec<(bool, usize)>> = RefCell::new(Vec::new());
     static NEXT: RefCell<usize> = RefCell::new(0);
-    static PLAN: RefCell<(Option<usize>, bool)> = RefCell::new((None, false));
+    static PLAN: RefCell<(Option<usize>, u8)> = RefCell::new((None, 0));
 }
 
 struct Tracked {
@@ -28,12 +28,12 @@ impl BorshDeserialize for Tracked {
             *n += 1;
             v
         });
-        let (fail_at, panic_mode) = PLAN.with(|p| *p.borrow());
+        let (fail_at, mode) = PLAN.with(|p| *p.borrow());
         if fail_at == Some(id) {
-            if panic_mode {
+            if mode == 1 {
                 panic!("planned panic in element decoder");
             }
-            return Err(Error::new(ErrorKind::InvalidData, "planned failure"));
+            return Err(if mode == 2 { ErrorKind::Interrupted.into() } else { Error::new(ErrorKind::InvalidData, "planned failure") });
         }
         LEDGER.with(|l| l.borrow_mut().push((true, id)));
         Ok(Tracked { id, _heap: Box::new([b as u64; 4]), _text: format!("element {}", id) })
@@ -56,12 +56,12 @@ impl BorshDeserialize for Unit {
             *n += 1;
             v
         });
-        let (fail_at, panic_mode) = PLAN.with(|p| *p.borrow());
+        let (fail_at, mode) = PLAN.with(|p| *p.borrow());
         if fail_at == Some(id) {
-            if panic_mode {
+            if mode == 1 {
                 panic!("planned panic in element decoder");
             }
-            return Err(Error::new(ErrorKind::InvalidData, "planned failure"));
+            return Err(if mode == 2 { ErrorKind::Interrupted.into() } else { Error::new(ErrorKind::InvalidData, "planned failure") });
         }
         LEDGER.with(|l| l.borrow_mut().push((true, id)));
         Ok(Unit)
@@ -92,12 +92,12 @@ fn check(n: usize, fail_at: Option<usize>, ok: bool, zst: bool) {
     }
 }
 
-fn run<const N: usize>(fail_at: Option<usize>, panic_mode: bool) {
+fn run<const N: usize>(fail_at: Option<usize>, mode: u8) {
     LEDGER.with(|l| l.borrow_mut().clear());
     NEXT.with(|n| *n.borrow_mut() = 0);
-    PLAN.with(|p| *p.borrow_mut() = (fail_at, panic_mode));
+    PLAN.with(|p| *p.borrow_mut() = (fail_at, mode));
     let data = vec![7u8; N + 2];
-    println!("case N={} fail_at={:?} mode={}", N, fail_at, if panic_mode { "panic" } else { "error" });
+    println!("case N={} fail_at={:?} mode={}", N, fail_at, ["error", "panic", "interrupted"][mode as usize]);
     let res = catch_unwind(AssertUnwindSafe(|| {
         let mut s = &data[..];
         <[Tracked; N]>::deserialize_reader(&mut s).map(|a| {
@@ -132,10 +132,11 @@ fn run<const N: usize>(fail_at: Option<usize>, panic_mode: bool) {
 }
 
 fn all<const N: usize>() {
-    run::<N>(None, false);
+    run::<N>(None, 0);
     for k in 0..N {
-        run::<N>(Some(k), false);
-        run::<N>(Some(k), true);
+        run::<N>(Some(k), 0);
+        run::<N>(Some(k), 1);
+        run::<N>(Some(k), 2);
     }
 }
 
